@@ -2,6 +2,7 @@
 import ast
 
 from ..index import AnalysisError, attr_chain, norm, own_nodes
+from .common import resolved_text
 
 EXPLANATION = (
     "Static lockset analysis. For SessionCache (entriesDict, entriesList, firstIndex, lastIndex), "
@@ -250,7 +251,7 @@ def rule_ring(ctx):
     for m in cls.methods.values():
         for n in own_nodes(m.node):
             if isinstance(n, ast.Assign) and isinstance(n.value, ast.BinOp) and \
-                    isinstance(n.value.op, ast.Mod) and "len(self.entriesList)" in norm(n.value.right):
+                    isinstance(n.value.op, ast.Mod) and "len(self.entriesList)" in resolved_text(m.node, n.value.right):
                 for t in n.targets:
                     c = attr_chain(t)
                     if c:
@@ -299,13 +300,16 @@ def rule_ring(ctx):
     adv = [n for n in gs.nodes if n.kind == "stmt" and isinstance(n.ast, ast.Assign)
            and any(attr_chain(t) == "self.firstIndex" for t in n.ast.targets)]
     dels = [n for n in gs.nodes if n.kind == "stmt" and isinstance(n.ast, ast.Delete)
-            and "self.entriesDict" in norm(n.ast) and "self.firstIndex" in norm(n.ast)]
+            and "self.entriesDict" in norm(n.ast) and "self.firstIndex" in resolved_text(seti.node, n.ast.targets[0])]
+    # a key read into a local counts at the point where it is READ (before or after the advance)
+    keyreads = [n for n in gs.nodes if n.kind == "stmt" and isinstance(n.ast, ast.Assign)
+                and "self.entriesList[self.firstIndex]" in norm(n.ast.value)]
     full = [t for t in gs.nodes if t.kind == "test" and {"self.lastIndex", "self.firstIndex"} <=
             {attr_chain(x) for x in ast.walk(t.expr) if isinstance(x, ast.Attribute)}]
     if not adv or not full:
         raise AnalysisError("C18.RING: eviction in SessionCache.__setitem__ not recognised")
     after = gs.reach([m for a in adv for m in gs.normal_succ(a)], follow_exc=False)
-    late = [d for d in dels if d.id in after]
+    late = [d for d in dels + keyreads if d.id in after and (d in keyreads or "self.firstIndex" in norm(d.ast))]
     before = gs.reach(gs.succ_on(full[0], "T"), blocked=dels, follow_exc=False)
     ctx.check(R, bool(dels) and not late and not any(a.id in before for a in adv), seti.qname,
               "eviction deletes the oldest slot before advancing firstIndex",
